@@ -234,13 +234,27 @@ class Setup:
             with warnings.catch_warnings():
                 warnings.simplefilter("ignore")
                 c = S["c"]
-                self.states = [State(c, v) for v in self.state_vecs]
-                self.povms = [Povm(c, vs) for vs in self.povm_vecs]
+                bufs = []
+
+                def arg(v, reuse):
+                    """the array handed to quara: contiguous copy, or (layout 'views') a strided float64 view into a larger buffer.
+                    reuse: the caller overwrites the buffer afterwards (only for Povm, which copies its vecs; State / Gate keep a reference
+                    to the caller's array by design of their constructors -- observation outside this property)"""
+                    if cfg.get("layout") != "views":
+                        return v
+                    big = np.full(3 * len(v) + 1, 9.0); big[1::3] = v
+                    if reuse:
+                        bufs.append(big)
+                    return big[1::3]
+                self.states = [State(c, arg(v, False)) for v in self.state_vecs]
+                self.povms = [Povm(c, [arg(v, True) for v in vs]) for vs in self.povm_vecs]
                 sch = "all" if cfg["sched"] == "all" else [quara_schedule(t, s) for s in self.scheds]
                 try:
                     self.qt = self._construct(sch)
                 except Exception as e:           # error branch (compared with the model by the caller)
                     self.impl_error = e
+                for big in bufs:                 # the caller re-uses its buffers: the tomography object must not alias them
+                    big[...] = -3.0
 
     def _construct(self, sch):
         t = self.typ
@@ -605,6 +619,8 @@ def boundary_cfgs(ctx, n):
             if typ == "qmpt" and sys != "1q":
                 cfg["m"] = 2
         cfg["kind"] = cfg.get("kind", "") + "+boundary-counts"
+        if i % 2 == 0:
+            cfg["layout"] = "views"; cfg["kind"] += "+views"
         out.append(cfg)
     return out
 
@@ -634,6 +650,21 @@ def zero_prob_cfgs():
         out.append({"typ": "qpt", "sys": "1q", "para": para, "seed": 1, "n_states": 4, "xstates": states, "povm_ms": [2, 3], "xpovms": povms[:2], "sched": "all", "xcand": [J(ID2)], "kind": "zero-prob"})
         out.append({"typ": "qmpt", "sys": "1q", "para": para, "seed": 1, "m": 2, "n_states": 2, "xstates": states[:2], "povm_ms": [2, 3], "xpovms": povms[:2], "sched": "all",
                     "xcand": [[J(P1)], [J(P0)]], "kind": "zero-prob"})
+    return out
+
+
+def atol_cfgs():
+    """Settings.atol = 2^-10 (exactly representable): probabilities 2^-14 (below: truncated to 0 and renormalised) and 2^-6 (above: kept),
+    in first / middle positions"""
+    J = op_json
+    out = []
+    for dlt in (Fraction(1, 2 ** 14), Fraction(1, 2 ** 6)):
+        cand = [[1 - dlt, 0], [0, dlt]]
+        for para in (0, 1):
+            out.append({"typ": "qst", "sys": "1q", "para": para, "seed": 2, "povm_ms": [2, 3], "xpovms": [[J(P1), J(P0)], [J(HALF0), J(P1), J(HALF0)]],
+                        "sched": [[1], [0]], "xcand": J(cand), "atol": 2.0 ** -10, "kind": "atol"})
+            out.append({"typ": "povmt", "sys": "1q", "para": para, "seed": 2, "m": 3, "n_states": 4, "xstates": [J(P0), J(P1), J(PP), J(PI)], "sched": "all",
+                        "xcand": [J([[dlt, 0], [0, 0]]), J([[1 - dlt, 0], [0, Fraction(1, 2)]]), J(HALF1)], "atol": 2.0 ** -10, "kind": "atol"})
     return out
 
 
@@ -786,6 +817,18 @@ def rows_match(rows, expected, tol=1e-9):
 
 
 def chk_prob_dists(ctx, cfg):
+    from quara.settings import Settings
+    if "atol" not in cfg:
+        return _chk_prob_dists(ctx, cfg)
+    old = Settings.get_atol()             # non-default global configuration: the truncation threshold follows Settings.atol
+    Settings.set_atol(float(cfg["atol"]))
+    try:
+        return _chk_prob_dists(ctx, cfg)
+    finally:
+        Settings.set_atol(old)
+
+
+def _chk_prob_dists(ctx, cfg):
     setup = Setup(cfg)
     if setup.qt is None:
         raise setup.impl_error
@@ -823,7 +866,8 @@ def chk_prob_dists(ctx, cfg):
         return
     impl = impl_prob_dists(qt, obj)
     zero = any(p < eps for r in born for p in r)
-    ctx.count("prob_dists", key=repr(cfg), nontrivial=True, label="%s-%s-%s%s" % (typ, "mixed" if mixed else "equal", impl[2] if impl[0] == "ok" else "raises", "-with-zero-probability" if zero else ""))
+    ctx.count("prob_dists", key=repr(cfg), nontrivial=True, label="%s-%s-%s%s%s" % (typ, "mixed" if mixed else "equal", impl[2] if impl[0] == "ok" else "raises",
+              "-with-zero-probability" if zero else "", "-atol%g" % cfg["atol"] if "atol" in cfg else ""))
     # --- the property: row j must be the Born distribution of schedule j (== the model, by the theorem instance above)
     if impl[0] != "ok" or not rows_match(impl[1], expected):
         what = ("raises ValueError (%s)" % impl[1][:80]) if impl[0] == "err" else "returns rows %s, the schedules' Born distributions are %s" % ([np.round(r, 6).tolist() for r in impl[1]], [np.round(e, 6).tolist() for e in expected])
@@ -837,9 +881,29 @@ def chk_prob_dists(ctx, cfg):
             if pj.shape != expected[j].shape or np.abs(pj - expected[j]).max(initial=0) > 1e-9:
                 ctx.violation("prob_dists", "StandardQTomography.calc_prob_dist", "value", "calc_prob_dist(obj, %d) differs from the Born distribution" % j, case)
                 break
+    # --- the candidate object's OWN parametrisation flag differs from the tomography object's: never a silently different prediction
+    if impl[0] == "ok" and rows_match(impl[1], expected):
+        kw = dict(is_physicality_required=False, on_para_eq_constraint=not setup.para)
+        from quara.objects.state import State
+        from quara.objects.povm import Povm
+        from quara.objects.gate import Gate
+        from quara.objects.mprocess import MProcess
+        c_ = setup.S["c"]
+        with warnings.catch_warnings():
+            warnings.simplefilter("ignore")
+            other = {"qst": lambda: State(c_, np.array(arrs, dtype=np.float64), **kw), "povmt": lambda: Povm(c_, [np.array(a, dtype=np.float64) for a in arrs], **kw),
+                     "qpt": lambda: Gate(c_, np.array(arrs, dtype=np.float64), **kw), "qmpt": lambda: MProcess(c_, [np.array(a, dtype=np.float64) for a in arrs], **kw)}[typ]()
+            try:
+                r2 = ("ok", [np.asarray(x, dtype=float).ravel() for x in qt.calc_prob_dists(other)])
+            except (ValueError, IndexError) as e:
+                r2 = ("err", str(e))
+        ctx.count("prob_dists", key=(repr(cfg), "other-flag"), nontrivial=True, label="candidate-with-other-flag-%s" % ("predicted" if r2[0] == "ok" else "rejected"))
+        if r2[0] == "ok" and not rows_match(r2[1], expected):
+            ctx.violation("prob_dists", site, "candidate-flag-mismatch-silent", "tomography flag %s, candidate object built with flag %s: calc_prob_dists returns %s instead of the Born distributions %s (or an error)" % (
+                setup.para, not setup.para, [np.round(r, 6).tolist() for r in r2[1]], [np.round(e, 6).tolist() for e in expected]), case)
     # --- Fisher slicing
-    if not setup.para or min(min(r) for r in born) < 1e-6:
-        return                       # calc_fisher_matrix always uses to_var(); needs strictly positive probabilities
+    if "atol" in cfg or not setup.para or min(min(r) for r in born) < 1e-6:
+        return                       # calc_fisher_matrix always uses to_var(); needs strictly positive probabilities (and replaces sub-threshold ones)
     A = np.asarray(qt.calc_matA(), dtype=float)
     S_ = len(counts)
     fsite = "StandardQTomography.calc_fisher_matrix"
@@ -896,7 +960,7 @@ def sub_prob_dists(ctx):
                 sch.insert(rng.randrange(len(sch) + 1), list(rng.choice(other)))
                 cfg["sched"] = sch; cfg["kind"] = cfg.get("kind", "") + "+mixed"
         cases.append(cfg)
-    cases += boundary_cfgs(ctx, ctx.n(8, 60)) + zero_prob_cfgs()
+    cases += boundary_cfgs(ctx, ctx.n(8, 60)) + zero_prob_cfgs() + atol_cfgs()
     ctx.sample("prob_dists", cases[0])
     ctx.run_cases("prob_dists", chk_prob_dists, cases)
 
